@@ -119,7 +119,7 @@ def _kv(pid, text, model_chk=False, extra=None):
 PROPS = {
     "C01": _kv("C01", "Full proof on the model: for every history (any collections, keys, entry points, arguments, clocks, size limits, purges, drops, expiry firings) every read answers from the current document, every failed/refused call leaves the document's complete view unchanged, and every successful write is what the next read-back shows (C01_holds, by a per-call theorem over all entry points and document states lifted by induction over histories). A purge takes away only body-less documents (store-level theorem C05_purge; the trace-level purge rule is proved sound too: C01_holds_with_purge). Tied to the code by differential execution of generated histories with full read-back after every step.", model_chk=True),
     "C02": _kv("C02", "Sequential part proved in full on the model: a conditional write (every entry point that carries an expected CAS) that succeeds had an expected CAS equal to the document's current CAS (0 = no document; for WriteCas no live document), and one that fails changes nothing (C02_holds, all histories). The two-writer race: for every schedule of the conditional-write loop a successful write was made on the CAS it read (Conc.v, C03); on the code, the lin family's certificate check includes the one-winner rule (no two successful conditional writes carry the same expected CAS) under real goroutine races, WithMeta writers included.", extra=[{"family": "lin"}]),
-    "C05": _kv("C05", "Full proof on the model: in every reachable store the tombstone column equals 'value IS NULL' (C05_flag_iff_nobody), and every history is accepted by the checker: deletion opcode iff no body, Delete/Remove keep exactly the system xattrs and clear the expiry, a body write onto a body-less key leaves only the supplied xattrs (C05_holds); PurgeTombstones removes exactly the body-less rows (C05_purge on the store, and the trace-level purge rule: C05_holds_with_purge).", model_chk=True),
+    "C05": _kv("C05", "Full proof on the model: in every reachable store the tombstone column equals 'value IS NULL' (C05_flag_iff_nobody), and every history is accepted by the checker: deletion opcode iff no body, Delete/Remove keep exactly the system xattrs and clear the expiry, a body write onto a body-less key leaves only the supplied xattrs (C05_holds); PurgeTombstones removes exactly the body-less rows (C05_purge on the store, and the trace-level purge rule: C05_holds_with_purge); a document removed by a firing of the expiry timer is left exactly as Delete would leave it - no body, no expiry, only its system xattrs (C05_expiry_is_a_removal: the step checker chk_step_expiry, which applies the row rule of Delete to every document a firing removed, accepts every history of the model; KvExpiry.v).", model_chk=True),
     "C06": _kv("C06", "Full proof on the model: for every history an insert-style write (Add, AddRaw, WriteCas AddOnly / cas 0, WriteResurrectionWithXattrs) succeeds only on a key without a body and a refusal happens only on a key with a body and leaves it untouched; WriteWithXattrs cas 0 succeeds only on an absent key (C06_holds)."),
     "C07": _kv("C07", "Full proof on the model: an xattr-only write changes exactly the named xattrs and keeps body, datatype and (unless given) expiry; a body-only write to a live document keeps its xattrs; a failed call changes nothing (C07_holds; frame lemmas over apply_xattrs / xattrs_remove for all xattr maps and name lists). Macro expansion values are compared exactly by the correspondence (CAS string and CRC32c computed in Coq)."),
     "C08": _kv("C08", "Sequential part proved in full on the model: every successful CAS-stamping call posts exactly one event equal to the rendering of the document as stored (key, opcode, body, xattrs, datatype bits, CAS, expiry, revision), every failed/refused call and every touch posts none (C08_holds, all histories). Ordering part: Feed.v splits a write into Commit / Snapshot / Push and a feed into Backfill / Register / Deliver / Stop as the code does; the full statement (every interleaving keeps CAS order) is REFUTED on the faithful model with a replayable witness (C08_order_refuted: the known finding KF-C08-order, reproduced on the code by the sched family through the cas.beforePost / post.snapshot hooks); the converse is PROVED for every schedule in which a write's commit, snapshot and push, and a feed's backfill and registration, are not separated by other actions: every run of every feed is in strictly increasing CAS order (C08_order_holds_when_posting_is_atomic, FeedOrder.v) - so the inversion needs exactly that window; and every schedule outside that window is checked: the sched family executes generated action lists on the real code under the hooks and compares deliveries, CAS values and checkpoints exactly with the model.", extra=[{"family": "sched", "chk": "sched_excused_C08", "strict_chk": "sched_strict_C08"}]),
